@@ -228,6 +228,106 @@ def check_history(params):
     return out
 
 
+def check_snaked(params):
+    """The same diagram with a snake (left- or right-handed) inserted on one wire after some layer,
+    as a rigid diagram: its normal form, for each flag, is the normal form of the diagram without
+    the snake, and is a fixed point."""
+    from discopy import rigid
+    m = _model_from_json(params["m"])
+    left, hand, t = params["left"], params["hand"], params["t"]
+    d = _from_model("rigid", m)
+    k = build.kit("rigid")
+    out = []
+    types = ref.m_types(m)
+    wires = types[t]
+    if not wires:
+        params["_skip"] = True
+        return out
+    w = params.get("w", 0) % len(wires)
+    a = k.ty([wires[w]])
+    L, R = k.ty(list(wires[:w])), k.ty(list(wires[w + 1:]))
+    if hand == "L":     # Id(a) @ Cap(a.r, a) >> Cup(a, a.r) @ Id(a)
+        snake = k.Id(a) @ rigid.Cap(a.r, a) >> rigid.Cup(a, a.r) @ k.Id(a)
+    else:               # Cap(a, a.l) @ Id(a) >> Id(a) @ Cup(a.l, a)
+        snake = rigid.Cap(a, a.l) @ k.Id(a) >> k.Id(a) @ rigid.Cup(a.l, a)
+    ds = d[:t] >> k.Id(L) @ snake @ k.Id(R) >> d[t:]
+
+    def nf(v):
+        try:
+            with time_limit(10, "normal_form"):
+                return ("value", ref.diagram_key(v.normal_form(left=left)))
+        except Exception as e:  # noqa
+            return ("raises", type(e).__name__)
+    want, got = nf(d), nf(ds)
+    if got != want:
+        out.append((_sig("snaked", params), "normal_form(left=%s) of %s is %s, but of the same diagram without the snake %s"
+                    % (left, ds, str(got)[:200], str(want)[:200])))
+        return out
+    if got[0] == "value":
+        n1 = ds.normal_form(left=left)
+        if ref.diagram_key(n1.normal_form(left=left)) != ref.diagram_key(n1):
+            out.append((_sig("snaked-not-idempotent", params), "normal_form(left=%s) of %s is not a fixed point" % (left, ds)))
+    return out
+
+
+def check_fork(params):
+    """In every diagram class: two states a, b (boxes without inputs) feeding a box c, written with
+    a first and with b first -- two members of one connected interchanger class.  Both normalise,
+    to the same value, which is well-typed, has the same boxes and is a fixed point."""
+    from mc import zoo
+    cls = params["cls"]
+    a, b, c = (zoo.value(cls, params[k_]) for k_ in ("a", "b", "c"))
+    d1 = a @ b >> c
+    d2 = a.id(a.dom) @ b >> a @ a.id(b.cod) >> c
+    out = []
+    for left in (False, True):
+        res = []
+        for d in (d1, d2):
+            try:
+                with time_limit(10, "normal_form"):
+                    nf = d.normal_form(left=left)
+            except Exception as e:  # noqa
+                out.append((_sig("fork-raises", [params, left]), "[%s] normal_form(left=%s) of the connected diagram %s raised %s: %s"
+                            % (cls, left, d, type(e).__name__, str(e)[:120])))
+                return out
+            errs = ref.scan(nf)
+            if errs or sorted(map(repr, map(ref.box_key, nf.boxes))) != sorted(map(repr, map(ref.box_key, d.boxes))):
+                out.append((_sig("fork-unsound", [params, left]), "[%s] normal_form(left=%s) of %s = %s: %s"
+                            % (cls, left, d, nf, errs[:2] or "not the same boxes")))
+                return out
+            if ref.diagram_key(nf.normal_form(left=left)) != ref.diagram_key(nf):
+                out.append((_sig("fork-not-idempotent", [params, left]), "[%s] normal_form(left=%s) of %s is not a fixed point" % (cls, left, d)))
+                return out
+            res.append(ref.diagram_key(nf))
+        if res[0] != res[1]:
+            out.append((_sig("fork-not-canonical", [params, left]), "[%s] %s and %s are one interchange apart but have different normal forms (left=%s)"
+                        % (cls, d1, d2, left)))
+            return out
+    return out
+
+
+def fork_items(quick):
+    from mc import zoo
+    items = []
+    for cls in ("monoidal", "rigid", "pregroup", "tensor", "circuit", "zx", "biclosed", "cartesian"):
+        vals = []
+        for e in zoo.BOXES[cls]:
+            if "ubble" in e:
+                continue
+            try:
+                vals.append((e, zoo.value(cls, e)))
+            except Exception:
+                continue
+        states = [(e, v) for e, v in vals if len(v.dom) == 0 and len(v.cod) == 1]
+        joins = [(e, v) for e, v in vals if len(v.dom) == 2]
+        for ea, a in states:
+            for eb, b in states:
+                for ec, c in joins:
+                    if ref.ty_key(c.dom) == ref.ty_key(a.cod) + ref.ty_key(b.cod):
+                        items.append(("fork", dict(cls=cls, a=ea, b=eb, c=ec)))
+    return items
+
+
 ORDERS = [[("nf", False), ("nf", True), ("nf", False)], [("nf", True), ("nf", False)],
           [("steps", False), ("nf", True), ("steps", True), ("nf", False)]]
 
@@ -285,6 +385,11 @@ def check_class(params):
             stats["steps"] += p.get("_steps", 0)
         for c in (cls, "rigid"):
             out.extend(check_history(dict(cls=c, m=m0, orders=ORDERS)))
+        if connected and len(members) > 1:
+            for left in (False, True):
+                for hand in ("L", "R"):
+                    for t in range(len(m0[1]) + 1):
+                        out.extend(check_snaked(dict(m=m0, left=left, hand=hand, t=t, w=t)))
     params["_stats"] = stats
     return out
 
@@ -330,7 +435,7 @@ def check_large(params):
 
 
 CASES = {k: safe("C06", f) for k, f in {"class": check_class, "member": check_member, "foliation": check_foliation,
-                                        "large": check_large, "history": check_history}.items()}
+                                        "large": check_large, "history": check_history, "snaked": check_snaked, "fork": check_fork}.items()}
 
 
 def _stage1(shard):
@@ -441,6 +546,14 @@ def run(ctx):
         ctx.count("states")
         ctx.count("transitions", params.pop("_steps", 0))
         ctx.count("large_diagrams")
+        for sig, msg in res:
+            ctx.violation(sig, msg, case, params)
+    forks = fork_items(ctx.quick)
+    ctx.note("universe_sizes", "forks over the box zoo of every class=%d" % len(forks))
+    for case, params in forks:
+        res = CASES[case](params)
+        ctx.count("states", 2)
+        ctx.count("fork_cases")
         for sig, msg in res:
             ctx.violation(sig, msg, case, params)
     ctx.counters["traces_validated_against_impl"] = ctx.counters.get("transitions", 0)
